@@ -319,3 +319,181 @@ _all_prev = all_contracts
 def all_contracts(tier):     # noqa: F811
     cs, t = _all_prev(tier)
     return cs + [feasibility_contract()], t
+
+
+# ----------------------------------------------------------------------------- lower bound: the confirmation step (Theorems A / B stay assumed)
+# confirm_lb_using_bounded_curvature_row(d, K, DY, max_diam) returns True only if, for some maximal row distribution of K,
+# the bottleneck assignment is infeasible against the distribution of EVERY row of DY (all len(DY) of them):
+#     res  ==>  exists i < #Kmax . forall j < len(DY) . not FEAS(Kmax[i], rows(DY)[j], d)
+#     not res ==> forall i < #Kmax . exists j < len(DY) . FEAS(Kmax[i], rows(DY)[j], d)
+# This is the hypothesis of Theorem B (L14); dropping rows of DY from the inner quantifier breaks the clause.
+def _row_id(eng, v):
+    """(buffer key, row index term) of a 1-d view that is a whole row of a 2-d buffer"""
+    if not (isinstance(v, Arr) and v.ndim == 1):
+        raise Exception("distribution is not a row of a 2-d array")
+    a, b = v.fwd((0,)), v.fwd((1,))
+    if not (len(a) == 2 and a[1] == 0 and b[1] == 1 and (a[0] is b[0] or str(to_z3(a[0])) == str(to_z3(b[0])))):
+        raise Exception("distribution is not a whole row")
+    keys = eng.ghost.setdefault("buf_keys", {})
+    key = keys.setdefault(id(v.buf), (len(keys), v.buf))[0]
+    return key, a[0]
+
+
+def _feas_uf(eng, ka, kb):
+    d = eng.ghost.setdefault("feas_ufs", {})
+    if (ka, kb) not in d:
+        d[(ka, kb)] = z3.Function("FEAS_%d_%d" % (ka, kb), z3.IntSort(), z3.IntSort(), z3.IntSort(), z3.BoolSort())
+    return d[(ka, kb)]
+
+
+def feasibility_summary(eng, pos, kw):
+    v, u, d = pos
+    ka, ia = _row_id(eng, v)
+    kb, ib = _row_id(eng, u)
+    return BoolV(_feas_uf(eng, ka, kb)(to_z3(ia), to_z3(ib), to_z3(d)))
+
+
+def represent_summary(eng, pos, kw):
+    """one distribution per row of the matrix, max_d columns (contents abstract here)"""
+    D, max_d = pos
+    R = fresh_symbolic("rowdist", (D.shape[0], max_d), dtype="int", eng=eng)
+    eng.ghost.setdefault("rep_calls", []).append((D, max_d, R))
+    return R
+
+
+def unique_max_summary(eng, pos, kw):
+    """some of the given distributions (at least one when there is any), same width"""
+    (R,) = pos
+    k = eng.fresh_int("n_unique_max", lo=0)
+    eng.assume(z3.And(k.t <= to_z3(R.shape[0]), z3.Implies(to_z3(R.shape[0]) >= 1, k.t >= 1)))
+    U = fresh_symbolic("maxdist", (k, R.shape[1]), dtype="int", eng=eng)
+    eng.ghost.setdefault("umax_calls", []).append((R, U))
+    return U
+
+
+def confirm_row_contract():
+    def make_args(eng):
+        k = eng.fresh_int("k", lo=3)
+        K = fresh_symbolic("K", (k, k), dtype="int", origin="param:K", eng=eng)
+        DY, m = sym_metric(eng, "DY")
+        d = eng.fresh_int("d", lo=1)
+        md = eng.fresh_int("max_diam", lo=1)
+        return {"d": d, "K": K, "DY": DY, "max_diam": md}, {"k": k, "m": m}
+
+    def ctx(e, st_or_a, env=None):
+        """(FE(i,j), #Kmax, len(DY)) from the recorded helper calls; None until both have been made"""
+        reps, um = e.ghost.get("rep_calls", []), e.ghost.get("umax_calls", [])
+        DY = st_or_a.DY
+        ry = [R for (D, _md, R) in reps if D is DY]
+        if not ry or not um:
+            return None
+        RY, U = ry[0], um[0][1]
+        keys = e.ghost.setdefault("buf_keys", {})
+        ku = keys.setdefault(id(U.buf), (len(keys), U.buf))[0]
+        ky = keys.setdefault(id(RY.buf), (len(keys), RY.buf))[0]
+        F = _feas_uf(e, ku, ky)
+        return (lambda i, j, d: F(to_z3(i), to_z3(j), to_z3(d))), U.shape[0], RY.shape[0]
+
+    def inv_outer(st):
+        e = st.eng
+        c = ctx(e, st)
+        if c is None:
+            return [("distributions_of_K_and_of_every_row_of_DY_computed", False, "P")]
+        FE, nK, mY = c
+        i, lb, d = st.i, zb(lift_b(st.lb_is_confirmed)), st.d
+        j, ii = z3.Int(e.uniq("qj")), z3.Int(e.uniq("qi"))
+        jj = z3.Int(e.uniq("qjj"))
+        allinf = z3.ForAll([j], z3.Implies(z3.And(j >= 0, j < to_z3(mY)), z3.Not(FE(lift(i) - 1, Num(j), d))))
+        earlier = z3.ForAll([ii], z3.Implies(z3.And(ii >= 0, ii < to_z3(i)), z3.Exists([jj], z3.And(jj >= 0, jj < to_z3(mY), FE(Num(ii), Num(jj), d)))))
+        return [("i_in_range", b_and(lift(i) >= 0, lift(i) <= nK), "S"),
+                ("confirmed_means_last_row_of_K_infeasible_against_every_row_of_DY", BoolV(z3.Implies(lb, z3.And(to_z3(i) >= 1, allinf))), "P"),
+                ("unconfirmed_means_every_earlier_row_of_K_has_a_feasible_row_of_DY", BoolV(z3.Implies(z3.Not(lb), earlier)), "P")]
+
+    def inv_inner(st):
+        e = st.eng
+        c = ctx(e, st)
+        if c is None:
+            return [("distributions_of_K_and_of_every_row_of_DY_computed", False, "P")]
+        FE, nK, mY = c
+        i, j, lb, d = st.i, st.j, zb(lift_b(st.lb_is_confirmed)), st.d
+        q, ii, jj = z3.Int(e.uniq("qj")), z3.Int(e.uniq("qi")), z3.Int(e.uniq("qjj"))
+        sofar = z3.ForAll([q], z3.Implies(z3.And(q >= 0, q < to_z3(j)), z3.Not(FE(i, Num(q), d))))
+        earlier = z3.ForAll([ii], z3.Implies(z3.And(ii >= 0, ii < to_z3(i)), z3.Exists([jj], z3.And(jj >= 0, jj < to_z3(mY), FE(Num(ii), Num(jj), d)))))
+        return [("i_in_range", b_and(lift(i) >= 0, lift(i) < nK), "S"),
+                ("j_in_range", b_and(lift(j) >= 0, lift(j) <= mY), "S"),
+                ("still_confirmed_means_rows_of_DY_so_far_infeasible", BoolV(z3.Implies(lb, sofar)), "P"),
+                ("refuted_means_the_last_row_of_DY_was_feasible", BoolV(z3.Implies(z3.Not(lb), z3.And(to_z3(j) >= 1, FE(i, lift(j) - 1, d)))), "P"),
+                ("every_earlier_row_of_K_has_a_feasible_row_of_DY", BoolV(earlier), "P")]
+
+    def lift_b(v):
+        return v if isinstance(v, BoolV) else BoolV(z3.BoolVal(bool(v)))
+
+    def ensures(a, res):
+        e = a.eng
+        c = ctx(e, a)
+        if c is None:
+            return [("distributions_of_K_and_of_every_row_of_DY_computed", False, "P")]
+        FE, nK, mY = c
+        reps = e.ghost.get("rep_calls", [])
+        um = e.ghost.get("umax_calls", [])
+        i, j = z3.Int(e.uniq("ei")), z3.Int(e.uniq("ej"))
+        r = zb(lift_b(res))
+        some_row = z3.Exists([i], z3.And(i >= 0, i < to_z3(nK), z3.ForAll([j], z3.Implies(z3.And(j >= 0, j < to_z3(mY)), z3.Not(FE(Num(i), Num(j), a.d))))))
+        no_row = z3.ForAll([i], z3.Implies(z3.And(i >= 0, i < to_z3(nK)), z3.Exists([j], z3.And(j >= 0, j < to_z3(mY), FE(Num(i), Num(j), a.d)))))
+        return [("returns_a_truth_value", isinstance(res, (bool, BoolV)), "P"),
+                ("every_row_of_DY_is_a_candidate", lift(mY) == a.g["m"], "P"),
+                ("rows_of_K_reduced_to_maximal_distributions_of_K_itself", len(um) >= 1 and any(D is a.K and R is um[0][0] for (D, _m, R) in reps), "P"),
+                ("distributions_use_the_common_diameter", all(md is a.max_diam for (_D, md, _R) in reps), "P"),
+                ("confirmed_only_if_some_row_of_K_is_infeasible_against_every_row_of_DY", BoolV(z3.Implies(r, some_row)), "P"),
+                ("not_confirmed_only_if_every_row_of_K_has_a_feasible_row_of_DY", BoolV(z3.Implies(z3.Not(r), no_row)), "P")]
+    return Contract(MOD, "confirm_lb_using_bounded_curvature_row", make_args, ensures=ensures, definedness="P",
+                    loops={0: LoopContract("while not lb_is_confirmed and i <", inv_outer, cls="P"),
+                           1: LoopContract("while lb_is_confirmed and j <", inv_inner, cls="P")})
+
+
+def row_confirm_summary(eng, pos, kw):
+    r = eng.fresh_bool("row_confirmed")
+    eng.ghost.setdefault("row_calls", []).append((tuple(pos), r))
+    return r
+
+
+def confirm_contract():
+    """confirm_lb_using_bounded_curvature == (K has more points than Y [Theorem A])  or  the row test [Theorem B] on the same arguments"""
+    def make_args(eng):
+        k = eng.fresh_int("k", lo=3)
+        K = fresh_symbolic("K", (k, k), dtype="int", origin="param:K", eng=eng)
+        DY, m = sym_metric(eng, "DY")
+        d = eng.fresh_int("d", lo=1)
+        md = eng.fresh_int("max_diam", lo=1)
+        return {"d": d, "K": K, "DY": DY, "max_diam": md}, {"k": k, "m": m}
+
+    def ensures(a, res):
+        e = a.eng
+        calls = e.ghost.get("row_calls", [])
+        bigger = zb(lift(a.g["k"]) > a.g["m"])
+        r = zb(res) if isinstance(res, BoolV) else z3.BoolVal(bool(res))
+        out = [("at_most_one_row_test", len(calls) <= 1, "P"),
+               ("more_points_than_Y_confirms", BoolV(z3.Implies(bigger, r)), "P")]
+        if calls:
+            args, rc = calls[0]
+            out.append(("row_test_on_the_same_arguments", args[0] is a.d and args[1] is a.K and args[2] is a.DY and args[3] is a.max_diam, "P"))
+            out.append(("otherwise_the_row_test_decides", BoolV(z3.Implies(z3.Not(bigger), r == zb(rc))), "P"))
+        else:
+            out.append(("row_test_skipped_only_when_K_is_bigger", BoolV(bigger), "P"))
+        return out
+    return Contract(MOD, "confirm_lb_using_bounded_curvature", make_args, ensures=ensures, definedness="P")
+
+
+def lb_tables():
+    C = Contract
+    t_row = {(MOD, "check_assignment_feasibility"): C(MOD, "check_assignment_feasibility", None, summary=feasibility_summary),
+             (MOD, "represent_distance_matrix_rows_as_distributions"): C(MOD, "represent_distance_matrix_rows_as_distributions", None, summary=represent_summary),
+             (MOD, "find_unique_max_distributions"): C(MOD, "find_unique_max_distributions", None, summary=unique_max_summary)}
+    t_conf = {(MOD, "confirm_lb_using_bounded_curvature_row"): C(MOD, "confirm_lb_using_bounded_curvature_row", None, summary=row_confirm_summary)}
+    return t_row, t_conf
+
+
+def lb_confirm_contracts(tier):
+    """[(contracts, table)] - verified with their own callee tables"""
+    t_row, t_conf = lb_tables()
+    return [([confirm_row_contract()], t_row), ([confirm_contract()], t_conf)]
